@@ -11,8 +11,8 @@
 
     Statements are about every pair of sequences and every score table. *)
 From CG3 Require Import Lib.PyZ Lib.Val Lib.MaxPlus Model.PairAlign Spec.AlignSpec Model.StarMerge
-  Spec.AlignFwdSpec Proofs.AlignProofs Proofs.AlignFwdProofs Proofs.AlignLocalProofs Proofs.AlignFiniteProofs
-  Proofs.StarMergeProofs.
+  Spec.AlignFwdSpec Model.Hirschberg Proofs.AlignProofs Proofs.AlignFwdProofs Proofs.AlignLocalProofs
+  Proofs.AlignFiniteProofs Proofs.HirschbergProofs Proofs.HirschbergRecProofs Proofs.StarRows Proofs.StarMergeProofs Proofs.StarMergeGenProofs.
 
 (** HEADLINE, in the forward reading of a path's score ([AlignFwdSpec.fscore]:
     start at BEGIN, add the transition into each column's state and its
@@ -85,11 +85,16 @@ Theorem global_example_nonvacuous :
   rows_of [SM; SM; SX; SM] [0; 1; 2; 3] [0; 1; 3] = ([0; 1; 2; 3], [0; 1; GAP; 3]).
 Proof. exact AlignProofs.global_example. Qed.
 
-(** star merge: residues are never altered (row 0 degaps to the reference, row
-    i+1 to the i-th other sequence).  PARTIAL: equal row lengths are not proved
-    (the implementation's Alignment constructor rejects ragged rows; compared
-    by the correspondence check). *)
-Theorem star_merge_degapped_partial :
+(** ---------------------------------------------------------------- star merge ([pairwise_to_multiple])
+
+    [star_merge false] is the model of the pinned code, [star_merge true] the
+    model of the code with the repaired [_GapOffset] rule
+    (notes/proposed_fixes/C18-1.diff).  [pairwise_ok ref (r, o)]: the two rows
+    have equal length, r degaps to the reference, no all-gap column. *)
+
+(** residues are never altered (row 0 degaps to the reference, row i+1 to the
+    i-th other sequence), for both rules *)
+Theorem star_merge_degapped :
   forall fixed ref pw rows,
     Forall (fun a => a <> GAP) ref ->
     star_merge fixed ref pw = Some rows ->
@@ -97,15 +102,55 @@ Theorem star_merge_degapped_partial :
                       Forall2 (fun ro row => degap row = degap (snd ro)) pw others.
 Proof. exact StarMergeProofs.star_merge_degapped. Qed.
 
+(** all rows of the multiple alignment have the same length, for both rules and
+    every list of pairwise alignments *)
+Theorem star_merge_equal_lengths :
+  forall fixed ref pw rows,
+    Forall (pairwise_ok ref) pw -> star_merge fixed ref pw = Some rows ->
+    Forall (fun row => length row = length (hd [] rows)) rows.
+Proof. exact StarMergeGenProofs.star_merge_equal_lengths. Qed.
+
+(** REPAIRED rule: for every reference and every list of pairwise alignments to
+    it the merge succeeds, every pairwise alignment is the projection of
+    (reference row, its row), and all rows have the same length *)
+Theorem star_merge_repaired_correct :
+  forall ref pw,
+    Forall isres ref -> Forall (pairwise_ok ref) pw ->
+    exists rows,
+      star_merge true ref pw = Some rows /\
+      Forall2 (fun ro row => project (hd [] rows) row = ro) pw (tl rows) /\
+      Forall (fun row => length row = length (hd [] rows)) rows.
+Proof. exact StarMergeGenProofs.star_merge_fixed_correct. Qed.
+
+Definition stmt_star_merge_keeps_pairwise_fixed : Prop := star_merge_keeps_pairwise true.
+
+Theorem star_merge_keeps_pairwise_repaired : stmt_star_merge_keeps_pairwise_fixed.
+Proof. exact StarMergeGenProofs.star_merge_keeps_pairwise_fixed. Qed.
+
+(** PINNED rule: the same conclusion whenever no new reference gap of a pairwise
+    alignment falls strictly inside a gap of its other sequence
+    ([no_new_gap_inside]: for every (r, o) and every (column, length) in the
+    new reference gaps of r, the columns left and right of the insertion point
+    are not both gaps of o) — this is exactly where the pinned code is right:
+    outside that case the two rules compute the same ([key_pinned_eq]), inside
+    it the witness below fails *)
+Theorem star_merge_pinned_correct_without_gap_inside :
+  forall ref pw,
+    Forall isres ref -> Forall (pairwise_ok ref) pw -> no_new_gap_inside pw ->
+    exists rows,
+      star_merge false ref pw = Some rows /\
+      Forall2 (fun ro row => project (hd [] rows) row = ro) pw (tl rows) /\
+      Forall (fun row => length row = length (hd [] rows)) rows.
+Proof. exact StarMergeGenProofs.star_merge_pinned_correct. Qed.
+
+Theorem star_merge_hypotheses_nonvacuous :
+  Forall isres ex_ref /\ Forall (pairwise_ok ex_ref) ex_pw /\ no_new_gap_inside ex_pw.
+Proof. exact StarMergeGenProofs.ex_hyps. Qed.
+
 (** "aligning to a reference keeps each sequence's pairwise alignment with the
-    reference" is FALSE of the faithful model of the pinned code: the witness
+    reference" is FALSE of the faithful model of the pinned code ([star_merge false]): the witness
     is ref CCAG with ('CCA-G','--TT-'), ('C-CAG','-TT--'), ('C-CAG','AG---'). *)
 Definition stmt_star_merge_keeps_pairwise : Prop := star_merge_keeps_pairwise false.
-
-(** the same statement for the code with notes/proposed_fixes/C18-1.diff applied
-    ([star_merge true]): not proved; no counterexample in the check's search,
-    and the witness is repaired ([star_merge_witness_repaired]) *)
-Definition stmt_star_merge_keeps_pairwise_fixed : Prop := star_merge_keeps_pairwise true.
 
 Theorem star_merge_witness_repaired :
   exists rows, star_merge true w_ref w_pw = Some rows /\
@@ -121,6 +166,31 @@ Proof. exact StarMergeProofs.star_merge_witness. Qed.
 
 Theorem star_merge_keeps_pairwise_is_false : ~ stmt_star_merge_keeps_pairwise.
 Proof. exact StarMergeProofs.star_merge_keeps_pairwise_false. Qed.
+
+(** ---------------------------------------------------------------- the divide step of the linear-space aligner
+
+    [Model/Hirschberg.v]: forward scores of row k from the table, backward
+    scores from the table of the mirrored problem, [middle] = their sums over
+    the cells (k, j) and states, [hirsch_score] = the maximum. *)
+
+(** for EVERY split row k the maximum of forward + backward over row k is the
+    optimal global score: the score the linear-space algorithm reports is the
+    score of the full dynamic programme *)
+Theorem hirschberg_divide_score :
+  forall P xs ys k, (k <= length xs)%nat -> hirsch_score P xs ys k = fst (align_global P xs ys).
+Proof. exact HirschbergProofs.hirsch_score_is_opt. Qed.
+
+(** every cell attaining the maximum lies on an optimal path that is in state s
+    when it has consumed k residues of xs and j of ys: splitting there loses nothing *)
+Theorem hirschberg_anchor_on_optimal_path :
+  forall P xs ys k j s z,
+    (k <= length xs)%nat -> (j <= length ys)%nat ->
+    fst (align_global P xs ys) = Some z ->
+    eplus (fwd_val P xs ys k j s) (bwd_val P xs ys k j s) = Some z ->
+    exists p1 p2,
+      fscore P SB (p1 ++ p2) xs ys = Some z /\
+      count_x p1 = k /\ count_y p1 = j /\ prev_of (rev p1) = s.
+Proof. exact HirschbergProofs.hirsch_anchor_on_optimal_path. Qed.
 
 (** local alignment ([local_pairwise]): [align_local] returns the score, the
     path and the cell (i, j) the path ends in.  The reported score is the local
@@ -161,11 +231,23 @@ Theorem local_example_nonvacuous :
   align_local ex_params [0; 1; 2; 3; 3; 3; 2; 0] [1; 3; 3; 2] = (Some 29, [SM; SM; SM], 7, 4).
 Proof. exact AlignLocalProofs.local_example. Qed.
 
+(** the WHOLE recursion ([hirsch_align]: divide at the first maximal cell of the
+    middle row, solve the left half with END reachable only from the anchor
+    state and the right half entered from the anchor state, concatenate; full
+    DP below 3 residues): for every score table and every pair of sequences it
+    reports the score of the full dynamic programme, and the concatenated path
+    has that score — linear-space = full DP, on the model *)
+Theorem hirschberg_recursion_correct :
+  forall P xs ys,
+    fst (hirsch_align P xs ys) = fst (align_global P xs ys) /\
+    (forall z, fst (hirsch_align P xs ys) = Some z -> fscore P SB (snd (hirsch_align P xs ys)) xs ys = Some z).
+Proof. exact HirschbergRecProofs.hirsch_align_correct. Qed.
+
 (** Not theorems (decided by the correspondence check only, see the driver):
-    - linear-space (Hirschberg) = full dynamic programming: the recursion of
-      [PairEmissionProbs.hirschberg] is not modelled; the check runs the same
-      inputs with HIRSCHBERG_LIMIT forced to 0 and compares score, rows and the
-      score recomputed from the rows (this is where the pinned code fails, see
-      notes/proposed_fixes/C18-2.diff);
+    - that the implementation's linear-space code IS the modelled recursion:
+      the check runs the same inputs with HIRSCHBERG_LIMIT forced to 0 / small,
+      compares score, rows and the score recomputed from the rows with the
+      model's [hirsch_align], and the implementation's middle row with
+      [middle] of the model (alignments of alignments / POG midlinks are not modelled);
     - numba kernels = [py_calc_rows]; float log-scores vs exact scores;
     - progressive alignment on a guide tree (outputs observed only). *)
